@@ -655,7 +655,7 @@ func (b *BaseStore) Sync(ctx context.Context, heads []ipfslog.Entry) error {
 
 		// heads come from the network: an entry lacking the fields the
 		// access controller and the replicator rely on is discarded
-		if h.GetIdentity() == nil || h.GetClock() == nil || !h.GetClock().Defined() || !h.GetHash().Defined() {
+		if h.GetIdentity() == nil || h.GetIdentity().Signatures == nil || h.GetClock() == nil || !h.GetClock().Defined() || !h.GetHash().Defined() {
 			b.Logger().Debug("warning: Given input entry is incomplete and was discarded.")
 			continue
 		}
